@@ -3,6 +3,8 @@
 From Coq Require Import NArith List Bool Arith.
 From LC Require Import Base.Lib Gen.Editor_gen Model.Composition Model.Conversion Model.Editor Model.EditorRun
      Model.EdInst Proofs.CompositionProofs Proofs.EditorInv Proofs.EditorFrames Proofs.EditorWitness.
+From Coq Require Import ZArith.
+From LC Require Import Gen.Keyboard_gen Model.CapiKeys Model.CapiConfig Model.CapiRun Proofs.CapiKeysProofs Proofs.CapiInv Proofs.EngineTiles.
 Import ListNotations.
 Open Scope nat_scope.
 
@@ -68,3 +70,23 @@ Theorem C02_stale_commit_witness :
     m_key conv_single e2 (key kc_Left 65533%N) = Ok (e3, BIgnore) /\ commit_buf (sh e3) = []).
 Proof. split; [exact C02_stale_commit_refuted_prefix | exact C02_stale_commit_fixed]. Qed.
 Print Assumptions C02_stale_commit_witness.
+
+(* ---- through the C API (Model/CapiKeys.v): after ANY key-entry call - chewing_handle_Space ... Capslock,
+   chewing_handle_Default / CtrlNum / Numlock with any int - in ANY state of the context, chewing_commit_Check = 1 only
+   together with the key result Commit: neither chewing_keystroke_CheckIgnore nor chewing_keystroke_CheckAbsorb is set,
+   and chewing_commit_String is not empty.  (chewing_handle_CtrlNum with a key that is no digit returns -1 without
+   handling anything: the context is the one before.) *)
+Theorem C02_commit_Check_only_with_a_commit_result : forall conv (c : cctx) o c',
+  key_call o -> cstep conv c o = Ok c' ->
+  c' = c \/
+  (chewing_commit_Check c' = 1%Z ->
+   chewing_keystroke_CheckIgnore c' = 0%Z /\ chewing_keystroke_CheckAbsorb c' = 0%Z /\ c_commit_string c' <> []).
+Proof. exact c_commit_check_only_with_commit. Qed.
+Print Assumptions C02_commit_Check_only_with_a_commit_result.
+
+(* non-vacuity: Hsu by number, English mode, `x` on an empty buffer: committed at once *)
+Definition c02_history : list cop := [CSetKBType 1; CConfigSetInt (Config.iopt_name Config.OLanguageMode) 0; CDefault 120]%Z.
+Example C02_c_history_example :
+  exists c, crun mf_conv (cx_init (mkMD [] [] []) [] ss_empty 0%N) c02_history = Ok c /\
+            chewing_commit_Check c = 1%Z /\ c_commit_string c = [120%N] /\ chewing_keystroke_CheckAbsorb c = 0%Z.
+Proof. vm_compute. eexists. repeat split. Qed.
